@@ -53,6 +53,7 @@ CONSTANTS
                 \*        copy: their state is shared by all alert IDs of the node
                 \*  "stop-at-first-collect-error"  an error collecting for the anonymous topic
                 \*        keeps the event from the named topic
+                \*  "erroring-reset-holds"  a reset condition that fails to evaluate holds the level
 
 Is(v) == v \in Variant
 RestoreKeepsEpisodeStart == ~Is("restore-from-event-time")
@@ -88,13 +89,16 @@ Adv(a, d)  == IF a = NoTime THEN NoTime ELSE CapAge(a + d)
 (* evaluations of that expression); rk[l] = 0: it is a stateless predicate   *)
 (* of the point.  sco: stateChangesOnly, scod its interval (0 = none).       *)
 (* flo/fhi: flapping thresholds in percent.  inline: the node has inline     *)
-(* handlers (anonymous topic) besides its named topic.                       *)
+(* handlers (anonymous topic) besides its named topic.  errs: points on      *)
+(* which a level or reset lambda FAILS to evaluate (missing field, wrong     *)
+(* type) are part of the input alphabet.                                     *)
 (***************************************************************************)
 MkCfg(has, rst, sco, scod, norec, all, flap, flo, fhi, H, batch) ==
     [has |-> has, rst |-> rst, sco |-> sco, scod |-> scod, norec |-> norec, all |-> all,
      flap |-> flap, flo |-> flo, fhi |-> fhi, H |-> H, batch |-> batch,
-     rk |-> <<0, 0, 0>>, inline |-> FALSE]
+     rk |-> <<0, 0, 0>>, inline |-> FALSE, errs |-> FALSE]
 WithRK(c, rk) == [c EXCEPT !.rk = rk]
+WithErrs(c) == [c EXCEPT !.errs = TRUE]
 WithInline(c) == [c EXCEPT !.inline = TRUE]
 
 HasReset(c, l) == l > 0 /\ c.has[l] /\ c.rst[l]
@@ -113,16 +117,28 @@ ConfigOK(c) ==
 (* lambdas on that point.  Only stateless lambdas that exist in the          *)
 (* configuration vary (the others are never evaluated / do not read the      *)
 (* point).                                                                   *)
+(* ce[l] / re[l]: evaluating the level / reset lambda of level l on the     *)
+(* point is an ERROR (c[l] / r[l] are then FALSE).  As the code has it: an   *)
+(* erroring level condition "does not hold" (the error is reported, the      *)
+(* search continues), an erroring reset condition does not hold the level    *)
+(* (the error is reported, the level comes from the level conditions alone). *)
+NoErr == [l \in 1..3 |-> FALSE]
 Classes(c) ==
-    { [c |-> cc, r |-> rr] :
+    { [c |-> cc, r |-> rr, ce |-> ee, re |-> ff] :
         cc \in { x \in [1..3 -> BOOLEAN] : \A l \in 1..3 : ~c.has[l] => ~x[l] },
-        rr \in { x \in [1..3 -> BOOLEAN] : \A l \in 1..3 : (~HasReset(c, l) \/ Stateful(c, l)) => ~x[l] } }
+        rr \in { x \in [1..3 -> BOOLEAN] : \A l \in 1..3 : (~HasReset(c, l) \/ Stateful(c, l)) => ~x[l] },
+        ee \in { x \in [1..3 -> BOOLEAN] : \A l \in 1..3 : x[l] => (c.errs /\ c.has[l]) },
+        ff \in { x \in [1..3 -> BOOLEAN] : \A l \in 1..3 : x[l] => (c.errs /\ HasReset(c, l) /\ ~Stateful(c, l)) } }
+    \ { q \in [c : [1..3 -> BOOLEAN], r : [1..3 -> BOOLEAN], ce : [1..3 -> BOOLEAN], re : [1..3 -> BOOLEAN]] :
+            \E l \in 1..3 : (q.ce[l] /\ q.c[l]) \/ (q.re[l] /\ q.r[l]) }
+Holds(p, l)  == p.c[l] /\ ~p.ce[l]          \* the level condition of l holds on p
+Passes(p, l) == p.r[l] \/ p.re[l]           \* the (stateless) reset condition of l lets the level drop
 
 ZeroCnt == [l \in 1..3 |-> 0]
 (***************************************************************************)
 (* The level rule.                                                           *)
 (***************************************************************************)
-Sat(c, p)      == { l \in 1..3 : c.has[l] /\ p.c[l] }
+Sat(c, p)      == { l \in 1..3 : c.has[l] /\ Holds(p, l) }
 Up(c, cur, p)  == { l \in Sat(c, p) : l >= cur }
 Lower(c, cur, p) == LET d == { l \in Sat(c, p) : l < cur } IN IF d = {} THEN 0 ELSE SetMax(d)
 (* the reset condition of the current level is consulted: nothing at or     *)
@@ -134,7 +150,7 @@ Gate(c, cur, p) == Up(c, cur, p) = {} /\ HasReset(c, cur)
 (* configured and false; else the highest satisfied level below; else OK.    *)
 DocLevel(c, cur, p) ==
     IF Up(c, cur, p) # {} THEN SetMax(Up(c, cur, p))
-    ELSE IF HasReset(c, cur) /\ ~p.r[cur] THEN cur
+    ELSE IF HasReset(c, cur) /\ ~Passes(p, cur) THEN cur
     ELSE Lower(c, cur, p)
 
 (* Documented, with a stateful reset: the SET of admissible levels.  "Each  *)
@@ -145,8 +161,8 @@ DocLevel(c, cur, p) ==
 DocLevelSet(c, cur, p, lo, hi) ==
     IF Up(c, cur, p) # {} THEN { SetMax(Up(c, cur, p)) }
     ELSE IF ~HasReset(c, cur) THEN { Lower(c, cur, p) }
-    ELSE LET mayHold == IF Stateful(c, cur) THEN lo[cur] + 1 < c.rk[cur] ELSE ~p.r[cur]
-             mayPass == IF Stateful(c, cur) THEN hi[cur] + 1 >= c.rk[cur] ELSE p.r[cur]
+    ELSE LET mayHold == IF Stateful(c, cur) THEN lo[cur] + 1 < c.rk[cur] ELSE ~Passes(p, cur)
+             mayPass == IF Stateful(c, cur) THEN hi[cur] + 1 >= c.rk[cur] ELSE Passes(p, cur)
          IN  (IF mayHold THEN {cur} ELSE {}) \cup (IF mayPass THEN { Lower(c, cur, p) } ELSE {})
 
 (* As coded: findFirstMatchLevel(start, stop) scans start, start-1, ...,    *)
@@ -155,7 +171,7 @@ DocLevelSet(c, cur, p, lo, hi) ==
 (* state of the reset expressions this alertState evaluates (count()).       *)
 FindFirst(c, start, stop, p) ==
     LET s == IF stop < 0 THEN 0 ELSE stop
-        m == { l \in (s + 1)..start : c.has[l] /\ p.c[l] }
+        m == { l \in (s + 1)..start : c.has[l] /\ Holds(p, l) }
     IN  IF m = {} THEN <<0, FALSE>> ELSE <<SetMax(m), TRUE>>
 
 CodeLevelS(c, cur, p, cnt) ==
@@ -165,7 +181,8 @@ CodeLevelS(c, cur, p, cnt) ==
     IN  IF a[2] THEN <<a[1], cnt>>
         ELSE IF ~HasReset(c, cur) THEN <<down, cnt>>
         ELSE LET n    == cnt[cur] + 1
-                 pass == IF Stateful(c, cur) THEN n >= c.rk[cur] ELSE p.r[cur]
+                 pass == IF Stateful(c, cur) THEN n >= c.rk[cur]
+                         ELSE IF Is("erroring-reset-holds") THEN p.r[cur] ELSE Passes(p, cur)
                  cnt2 == IF Stateful(c, cur) THEN [cnt EXCEPT ![cur] = Min2(n, c.rk[cur])] ELSE cnt
              IN  IF pass THEN <<down, cnt2>> ELSE <<cur, cnt2>>
 
@@ -397,7 +414,7 @@ Step(i, pts, tmx) ==
 (* alertState.Point *)
 Point(p, dt) ==
     /\ ~cfg.batch
-    /\ LET pt == [c |-> p.c, r |-> p.r, off |-> dt]
+    /\ LET pt == [c |-> p.c, r |-> p.r, ce |-> p.ce, re |-> p.re, off |-> dt]
        IN  Step(ImplStream(cfg, im, pt), <<pt>>, dt)
 
 (* alertState.BufferedBatch.  Offsets: first point at dt, the following     *)
@@ -406,7 +423,7 @@ Batch(ps, dt, gaps, g) ==
     /\ cfg.batch
     /\ LET n   == Len(ps)
            off[i \in 1..n] == IF i = 1 THEN dt ELSE off[i - 1] + gaps[i]
-           pts == [i \in 1..n |-> [c |-> ps[i].c, r |-> ps[i].r, off |-> off[i]]]
+           pts == [i \in 1..n |-> [c |-> ps[i].c, r |-> ps[i].r, ce |-> ps[i].ce, re |-> ps[i].re, off |-> off[i]]]
            tmx == off[n] + g
        IN  Step(ImplBatch(cfg, im, pts, tmx), pts, tmx)
 
@@ -495,7 +512,7 @@ LevelRuleStatic ==
 (* 61 73 64 85 62 56 47 give INFO WARNING WARNING CRITICAL INFO INFO OK.     *)
 DocExampleCfg ==
     MkCfg(<<TRUE, TRUE, TRUE>>, <<TRUE, TRUE, TRUE>>, FALSE, 0, FALSE, FALSE, FALSE, 0, 0, 2, FALSE)
-DocClass(v) == [c |-> <<v > 60, v > 70, v > 80>>, r |-> <<v < 50, v < 60, v < 70>>]
+DocClass(v) == [c |-> <<v > 60, v > 70, v > 80>>, r |-> <<v < 50, v < 60, v < 70>>, ce |-> NoErr, re |-> NoErr]
 DocExampleValues == <<61, 73, 64, 85, 62, 56, 47>>
 LevelsOf(L(_, _, _), vals) ==
     LET f[i \in 0..Len(vals)] ==
